@@ -821,6 +821,22 @@ def gen_twin(rng):
         if ln:
             lt["next"], st["next"] = ln, sn
         long_t[t], short_t[t] = lt, st
+    # context inspection must see the same thing through both notations: outputs that read variables
+    # published further down (reached through comma-separated do) and a genuinely unassigned reference
+    # in a downstream task
+    published = sorted(set(list(p)[0] for lt in long_t.values() for tr in lt.get("next", [])
+                           for p in (tr.get("publish") or []) if isinstance(p, dict)))
+    for v in published[:2]:
+        if rng.random() < 0.6:
+            base["output"].append({"o_" + v: L.ctx(v)})
+    if n >= 2 and rng.random() < 0.3:
+        t = names[rng.randint(1, n - 1)]
+        if "with" not in long_t[t] and isinstance(long_t[t].get("input"), dict) and isinstance(short_t[t].get("input"), dict):
+            for d in (long_t[t], short_t[t]):
+                d["input"] = dict(d["input"], probe=L.ctx("never_assigned"))
+        elif "with" not in long_t[t] and "input" not in long_t[t] and "input" not in short_t[t]:
+            for d in (long_t[t], short_t[t]):
+                d["input"] = {"probe": L.ctx("never_assigned")}
     long_d, short_d = copy.deepcopy(base), copy.deepcopy(base)
     long_d["tasks"], short_d["tasks"] = long_t, short_t
     feats["value_classes"] = sorted(feats["value_classes"])
